@@ -16,6 +16,7 @@
 //	fwd:<n>:<tid>                                              target arrives on node n: Lookup + TunnelConnectionManager.CreateDedicatedConnection
 //
 //	poll:<n>:<tid>:<k>  pend:<n>:<tid>                         SessionManager.lookupTunnelRouting behind a gated store: first k polls / one more poll, then ctx ends
+//	remc:<n>:<tid>  remd:<n>:<tid>                            RemoveWaitingTunnel with a cancelled / deadline-exceeded context
 //	slook:<n>:<tid>  send:<n>:<tid>                            a lookup whose storage reply is held back / let through
 //	restart:<n>                                                node n crashes and restarts over the same storage
 //
@@ -515,6 +516,19 @@ func (e *env) exec(tok string) string {
 	case "rem":
 		n := node()
 		if err := e.tables[n].RemoveWaitingTunnel(ctx, uh(f[2])); err != nil {
+			return errTok(err)
+		}
+		return "ok"
+	case "remc", "remd":
+		// the caller's context is dead (cancelled / past its deadline), as the session manager's is at shutdown
+		n := node()
+		dctx, cancel := context.WithCancel(ctx)
+		if f[0] == "remd" {
+			cancel()
+			dctx, cancel = context.WithDeadline(ctx, time.Now().Add(-time.Second))
+		}
+		cancel()
+		if err := e.tables[n].RemoveWaitingTunnel(dctx, uh(f[2])); err != nil {
 			return errTok(err)
 		}
 		return "ok"
